@@ -250,3 +250,62 @@ func runC19D19(ctx *Ctx) {
 		c19RunPS(ctx, nregs, ops, true, "d19-wholly-known-keys")
 	}
 }
+
+// d19ProbeOracle checks, on the real library, the two contracts the walk / transform
+// theorems assume of the set oracle the model is fed (`Walk.IterPerm X`: iteration lists
+// exactly the stored members, each once) and the one the unproved RawEquals form of
+// transform-id would need (`iter-rebuild`: a set rebuilt by SetVal from its own iteration
+// iterates alike), for every set inside v.
+func d19ProbeOracle(ctx *Ctx, v cty.Value) {
+	if v == cty.NilVal {
+		return
+	}
+	v, _ = v.Unmark()
+	if v.IsNull() || !v.IsKnown() {
+		return
+	}
+	ty := v.Type()
+	switch {
+	case ty.IsSetType():
+		members := ssetMembers(cty.VerifDump(v))
+		used := make([]bool, len(members))
+		ok := true
+		var its []string
+		for it := v.ElementIterator(); it.Next(); {
+			_, e := it.Element()
+			d := cty.VerifDump(e)
+			its = append(its, d)
+			found := false
+			for i, m := range members {
+				if !used[i] && m == d {
+					used[i], found = true, true
+					break
+				}
+			}
+			if !found {
+				ok = false
+			}
+			d19ProbeOracle(ctx, e)
+		}
+		ctx.Probe("IterPerm", ok && len(its) == len(members), "a set's iteration is not a permutation of its stored members: "+v.GoString())
+		if len(its) > 0 {
+			same := false
+			try(func() {
+				r := cty.SetVal(v.AsValueSlice())
+				var its2 []string
+				for it := r.ElementIterator(); it.Next(); {
+					_, e := it.Element()
+					its2 = append(its2, cty.VerifDump(e))
+				}
+				same = fmt.Sprint(its) == fmt.Sprint(its2)
+			})
+			ctx.Probe("iter-rebuild", same, "SetVal of a set's own iteration iterates differently: "+v.GoString())
+			ctx.Tag("probe:set")
+		}
+	case ty.IsListType() || ty.IsTupleType() || ty.IsMapType() || ty.IsObjectType():
+		for it := v.ElementIterator(); it.Next(); {
+			_, e := it.Element()
+			d19ProbeOracle(ctx, e)
+		}
+	}
+}
